@@ -96,6 +96,34 @@ check("C09", "TLC model checking of AhbSplit.tla (split) and AhbEval.tla (select
       "result must equal the real evaluation of that part's condition on its own; bare indicators are re-evaluated between cases.",
       "Trusted: TLC, renderer, projection. requirement_is_conditional compared only for single parts (DESIGN 6.6a).", "DESIGN.md 3.3, 3.6, 5/C09")
 
+VAL_NOTE = ("Trusted: TLC; the renderer from node labels to AHB expressions under a fixed content evaluation result (keys 1,2 fulfilled; 3,4 unfulfilled; "
+            "5,6 unknown; packages 1P,3P,5P,12P,13P) and the projection of ValidationResultInContext lists; bounded tree sizes as stated, larger "
+            "bounds sampled by seed.")
+check("C13", "TLC model checking of Validation.tla (documented recursive walk; ExactlyOnceInOrder, ParentDominates, Suffix) + replay of every "
+      "enumerated AHB tree through validate_deep_anwendungshandbuch",
+      "TLC generates every AHB forest up to 3 nodes with every label (4 indicators x 3 outcomes, or INVALID) at every node kind and, over 8 labels, "
+      "up to 4 (thorough 5) nodes, and proves on each the structural properties of the documented walk; every tree <=3 nodes and a seeded sample of "
+      "the larger ones is rendered as a maus DeepAnwendungshandbuch with seeded expression shapes and validated by the real code with both flag "
+      "values: reported nodes, their order, statuses and FILLED/EMPTY suffixes must equal the spec's list; an undetermined MUSS/prefix node must "
+      "give NotImplementedError.", VAL_NOTE, "DESIGN.md 3.10, 5/C13")
+check("C14", "TLC model checking of SollEquivalence on Validation.tla + replay: flag runs against runs on the textually rewritten AHB (real code on both "
+      "sides) and against the spec",
+      "TLC proves Validate(t, TRUE) = Validate(t[SOLL:=MUSS], any flag) and Validate(t, FALSE) = Validate(t[SOLL:=KANN], any flag) for every tree in "
+      "the bound; for every enumerated tree containing SOLL (seeded sample for 4-5 nodes) the real code validates the AHB with each flag value and "
+      "the AHB whose SOLL indicator words are replaced by Muss/Kann under both flag values; all must agree with each other and the spec.",
+      VAL_NOTE, "DESIGN.md 3.10, 5/C14")
+check("C16", "TLC model checking of Containment on Validation.tla + replay: AHB with invalid expressions against the AHB with 'Kann' (real code on both "
+      "sides) and against the spec",
+      "TLC proves for every tree in the bound with INVALID labels at any subset of groups, segments, free-text elements and pool entries that the "
+      "invalid nodes are optional and every other node is reported exactly as in the tree with 'Kann'; the real code validates both AHBs for a "
+      "seeded sample of all such trees <=4 (5) nodes: no exception, invalid node optional with hint, all other entries identical.",
+      VAL_NOTE, "DESIGN.md 3.10, 5/C16")
+check("C17", "TLC model checking of PoolRules on Validation.tla + exhaustive replay of every pool through three entry points",
+      "TLC enumerates every value pool of 1-3 entries over {fulfilled, unfulfilled, unknown, invalid} x every entered input x parent status and proves the "
+      "pool rules on the documented PoolResult; every one is validated by the real code through validate_deep_anwendungshandbuch, validate_segment "
+      "and validate_data_element_valuepool: offered qualifiers in pool order, accepted iff offered, unexpected flagged and reported empty, forbidden "
+      "iff nothing offered or the segment is forbidden.", VAL_NOTE, "DESIGN.md 3.10, 5/C17")
+
 NOT_BUILT = "check under construction in this session (specification module planned in DESIGN.md section 3); not claimed yet"
 
 
